@@ -1,6 +1,6 @@
 (* C01 — Obfuscated builds behave exactly like regular builds (the naming part that a theorem
    can carry; the rest of the statement is exercised by the differential runs of the check). *)
-From Verif Require Import Base.Bytes Model.Flags Model.Names Model.Scope Model.Rename Model.Linkname Model.Asm Proofs.RenameProofs Proofs.AsmProofs.
+From Verif Require Import Base.Bytes Model.Flags Model.Names Model.Scope Model.Rename Model.Linkname Model.Asm Model.LinkFlags Proofs.RenameProofs Proofs.AsmProofs Proofs.LinkFlagsProofs.
 From Verif Require Gen.StdTables.
 Open Scope N_scope.
 
@@ -80,6 +80,20 @@ Theorem C01_asm_go_agree : forall intr to_obf d,
   (decide intr to_obf d = HashPkg) <-> (to_obf (o_pkg d) && negb (intrinsic intr (o_pkg d) (o_name d)) = true).
 Proof. exact asm_go_agree. Qed.
 
+(* -ldflags=-X (transformLink): a flag naming a variable of a package of the build is duplicated with the
+   package's obfuscated import path and the hash the Go side gives the variable; the name is cut at the
+   last dot, so import paths containing dots work; flags for unknown packages get no duplicate *)
+Theorem C01_x_flag_duplicate : forall lookup cur hname path name v ipath key,
+  existsb (N.eqb EQ) (path ++ 46 :: name) = false -> existsb (N.eqb 46) name = false ->
+  beq path s_mainpkg = false -> lookup path = Some (ipath, key) ->
+  x_dup lookup cur hname (path ++ 46 :: name ++ EQ :: v) = [s_Xeq ++ ipath ++ [46] ++ hname key name ++ [EQ] ++ v].
+Proof. exact x_dup_of_known_package. Qed.
+Theorem C01_x_flag_unknown_package : forall lookup cur hname path name v,
+  existsb (N.eqb EQ) (path ++ 46 :: name) = false -> existsb (N.eqb 46) name = false ->
+  beq path s_mainpkg = false -> lookup path = None ->
+  x_dup lookup cur hname (path ++ 46 :: name ++ EQ :: v) = [].
+Proof. exact x_dup_of_unknown_package. Qed.
+
 Print Assumptions C01_rename_preserves_resolution.
 Print Assumptions C01_rename_no_capture.
 Print Assumptions C01_interfaces_preserved.
@@ -92,3 +106,5 @@ Print Assumptions C01_linkname_unknown_unchanged.
 Print Assumptions C01_asm_passthrough.
 Print Assumptions C01_asm_local_reference.
 Print Assumptions C01_asm_go_agree.
+Print Assumptions C01_x_flag_duplicate.
+Print Assumptions C01_x_flag_unknown_package.
